@@ -726,6 +726,26 @@ func (f *LastValueFunction) Clone() AggregatorFunction {
 	}
 }
 
+// mergeObjectValues merges the key/value pairs of the given values into one object when
+// every value is an object; a key present in several objects keeps the last value.
+// It returns false when there is no value or any value is not an object.
+func mergeObjectValues(values []any) (map[string]any, bool) {
+	if len(values) == 0 {
+		return nil, false
+	}
+	merged := make(map[string]any)
+	for _, v := range values {
+		obj, ok := v.(map[string]any)
+		if !ok {
+			return nil, false
+		}
+		for k, val := range obj {
+			merged[k] = val
+		}
+	}
+	return merged, true
+}
+
 // MergeAggFunction 合并聚合函数 - 将组中的值合并为单个值
 type MergeAggFunction struct {
 	*BaseFunction
@@ -746,6 +766,11 @@ func (f *MergeAggFunction) Validate(args []any) error {
 func (f *MergeAggFunction) Execute(ctx *FunctionContext, args []any) (any, error) {
 	if len(args) == 0 {
 		return nil, nil
+	}
+
+	// Objects: merge all key/value pairs
+	if merged, ok := mergeObjectValues(args); ok {
+		return merged, nil
 	}
 
 	// 尝试合并为字符串
@@ -774,6 +799,11 @@ func (f *MergeAggFunction) Add(value any) {
 func (f *MergeAggFunction) Result() any {
 	if len(f.values) == 0 {
 		return nil
+	}
+
+	// Objects: merge all key/value pairs
+	if merged, ok := mergeObjectValues(f.values); ok {
+		return merged
 	}
 
 	// 尝试合并为字符串
@@ -1448,6 +1478,11 @@ func (f *MergeAggAggregatorFunction) Add(value any) {
 func (f *MergeAggAggregatorFunction) Result() any {
 	if len(f.values) == 0 {
 		return ""
+	}
+
+	// Objects: merge all key/value pairs
+	if merged, ok := mergeObjectValues(f.values); ok {
+		return merged
 	}
 
 	var result strings.Builder
